@@ -41,7 +41,7 @@ SUITES = {
              "overwrite_absolute_messages: invalidates the wrong view"),
         ]},
     "elem": {
-        "gen": "ElemFns.lean", "modules": ["SCoda.Props.ElemTie"],
+        "gen": "ElemFns.lean", "modules": ["SCoda.Props.ElemTie", "SCoda.Props.ElemTieCh"],
         "mutants": [
             ("e1_bar_capacity", "elements/bar.py", r"int\(self\.time_signature_numerator \* PPQN / \(self\.time_signature_denominator / 4\)\)",
              "int(self.time_signature_numerator * PPQN / (self.time_signature_denominator / 2))", "Bar.__init__: capacity for a /2 instead of /4 beat"),
@@ -55,10 +55,15 @@ SUITES = {
              "Bar.to_sequence: last bar skipped"),
             ("e6_is_empty", "elements/bar.py", r"return self\.sequence\.is_empty\(\)", "return not self.sequence.is_empty()",
              "Bar.is_empty: negated"),
-            ("e7_bar_copy_channel", "elements/bar.py", r"(self\.time_signature_denominator, self\.key_signature),\s*self\.default_channel\)", r"\1)",
-             "Bar.copy: default_channel not handed on (the repair of D37 reverted in copy)"),
-            ("e8_bar_init_channel", "elements/bar.py", r"\n\s*self\.default_channel = default_channel\n", r"\n",
-             "Bar.__init__: default_channel not stored (the repair of D37 reverted in __init__)"),
+            ("e7_bar_copy_channel_0", "elements/bar.py", r"(self\.time_signature_denominator, self\.key_signature),\s*channel\)", r"\1, 0)",
+             "Bar.copy: passes channel 0 (the unrepaired copy: the bar's own channel is read but not handed on)"),
+            ("e8_bar_copy_stored_channel", "elements/bar.py",
+             r"(self\.key_signature = key\n)(.*?)(self\.time_signature_denominator, self\.key_signature),\s*channel\)",
+             r"\1        self.default_channel = default_channel\n\2\3, self.default_channel)",
+             "Bar.__init__ stores default_channel and Bar.copy passes the stored construction-time channel (the first repair, f9ef398, which goes stale after set_channel)"),
+            ("e9_bar_copy_last_sig", "elements/bar.py", r"time_signature = next\(\(msg for msg in self\.sequence\.rel\._messages",
+             "time_signature = next((msg for msg in self.sequence.abs._messages",
+             "Bar.copy: looks for the time signature in the ABSOLUTE view (another property read: the stale-flag protocol differs)"),
         ]},
 }
 
